@@ -243,7 +243,9 @@ PLANS['C13'] = dict(
     minimums=lambda t: {'evaluations': 3000, 'cross_process_loads': 1000, 'roundtrips[class-spec:only]': 20,
                         'roundtrips[class-spec:only_after]': 20, 'roundtrips[class-spec:narrow_then_extend]': 20,
                         'roundtrips[class-provides:provider]': 20, 'roundtrips[instance-provides:nolonger]': 10,
-                        'roundtrips[class-spec:legacy_attr]': 10, 'roundtrips[builtin-spec:only]': 10},
+                        'roundtrips[class-spec:legacy_attr]': 10, 'roundtrips[builtin-spec:only]': 10,
+                        'roundtrips[class-provides-history:also]': 20, 'roundtrips[class-provides-history:nolonger]': 20,
+                        'roundtrips[class-provides-history:provider+also_twice]': 5},
     rule='Generated module files (interfaces with sentinel attribute names/docstrings; classes in every declaration shape: '
          'plain, decorated, implementer_only, classImplementsOnly after the fact, classImplementsFirst, narrowed-then-extended, '
          'provider, old-style __implemented__ attribute; built-in / extension types declared with classImplementsOnly) imported under unique names; every interface, class specification, class provides-declaration, instance '
